@@ -255,3 +255,33 @@ package bexpr
 //@   ensures[C13,C12,C01] allCacheOK()
 //@   decreases astSize(expr)
 //@   assigns grammar.MatchValue.Converted
+
+//@ func Evaluator.Expression(eval) (res)
+//@   requires eval != nil
+//@   ensures[C13] res == eval.expression
+//@   assigns nothing
+
+//@ func Filter.Execute(f, data) (res, err)
+//@   dead_returns 2
+//@   requires f != nil ==> f.evaluator != nil && wf(f.evaluator.ast) && allCacheOK()
+//@   ensures[C17] nilfilter: f == nil ==> res == data && err == nil
+//@   ensures[C17,C09] err_nil_result: err != nil ==> res == nil
+//@   ensures[C17] not_filterable: f != nil && kind(valueOf(data)) != K.Slice && kind(valueOf(data)) != K.Array && kind(valueOf(data)) != K.Map ==> err != nil
+//@   ensures[C17] list: f != nil && (kind(valueOf(data)) == K.Slice || kind(valueOf(data)) == K.Array) ==> filterOut(res, err) == FilterFrom(f.evaluator.ast, evalAO(f.evaluator.tagName, f.evaluator.valueTransformationHook, f.evaluator.unknownVal), valueOf(data), 0, zero[[]reflect.Value])
+//@   ensures[C17] slice_type: f != nil && err == nil && kind(valueOf(data)) == K.Slice ==> rtype(valueOf(res)) == rtype(valueOf(data))
+//@   ensures[C17] array_type: f != nil && err == nil && kind(valueOf(data)) == K.Array ==> rtype(valueOf(res)) == sliceOf(telem(rtype(valueOf(data))))
+//@   ensures[C17,C14] map_content: f != nil && err == nil && kind(valueOf(data)) == K.Map ==> forall k RV :: heap(ghost.rmap)[mapid(valueOf(res))][k] == ite(valid(mapget(valueOf(data), k)) && Eval(f.evaluator.ast, iface(mapget(valueOf(data), k)), evalAO(f.evaluator.tagName, f.evaluator.valueTransformationHook, f.evaluator.unknownVal)) == O.T, mapget(valueOf(data), k), rv.zero)
+//@   ensures[C17,C14] map_noerr: f != nil && err == nil && kind(valueOf(data)) == K.Map ==> forall k RV :: valid(mapget(valueOf(data), k)) ==> canIface(mapget(valueOf(data), k)) && Eval(f.evaluator.ast, iface(mapget(valueOf(data), k)), evalAO(f.evaluator.tagName, f.evaluator.valueTransformationHook, f.evaluator.unknownVal)) != O.E
+//@   ensures[C17,C14] map_err: f != nil && err != nil && kind(valueOf(data)) == K.Map ==> exists k RV :: valid(mapget(valueOf(data), k)) && (!canIface(mapget(valueOf(data), k)) || Eval(f.evaluator.ast, iface(mapget(valueOf(data), k)), evalAO(f.evaluator.tagName, f.evaluator.valueTransformationHook, f.evaluator.unknownVal)) == O.E)
+//@   ensures[C17] map_type: f != nil && err == nil && kind(valueOf(data)) == K.Map ==> rtype(valueOf(res)) == rtype(valueOf(data))
+//@   assigns nothing
+//@   loop 1:
+//@     invariant 0 <= i && kind(newSlice) == K.Slice && valid(newSlice) && canIface(newSlice)
+//@     invariant rtype(newSlice) == ite(kind(valueOf(data)) == K.Slice, rtype(valueOf(data)), sliceOf(telem(rtype(valueOf(data)))))
+//@     invariant[C17] FilterFrom(f.evaluator.ast, evalAO(f.evaluator.tagName, f.evaluator.valueTransformationHook, f.evaluator.unknownVal), valueOf(data), i, seqOf(newSlice)) == FilterFrom(f.evaluator.ast, evalAO(f.evaluator.tagName, f.evaluator.valueTransformationHook, f.evaluator.unknownVal), valueOf(data), 0, zero[[]reflect.Value])
+//@     decreases rlen(valueOf(data)) - i
+//@   loop 2:
+//@     invariant -1 <= rangeindex && rangeindex < len(rangeslice) && keysOf(rangeslice, valueOf(data))
+//@     invariant valid(newMap) && kind(newMap) == K.Map && canIface(newMap) && rtype(newMap) == rtype(valueOf(data)) && !isnil(newMap)
+//@     invariant[C17,C14] forall k RV :: valid(mapget(valueOf(data), k)) && idxOf(rangeslice, k) <= rangeindex ==> canIface(mapget(valueOf(data), k)) && Eval(f.evaluator.ast, iface(mapget(valueOf(data), k)), evalAO(f.evaluator.tagName, f.evaluator.valueTransformationHook, f.evaluator.unknownVal)) != O.E
+//@     invariant[C17,C14] forall k RV :: heap(ghost.rmap)[mapid(newMap)][k] == ite(valid(mapget(valueOf(data), k)) && idxOf(rangeslice, k) <= rangeindex && Eval(f.evaluator.ast, iface(mapget(valueOf(data), k)), evalAO(f.evaluator.tagName, f.evaluator.valueTransformationHook, f.evaluator.unknownVal)) == O.T, mapget(valueOf(data), k), rv.zero)
